@@ -26,3 +26,90 @@ def run_witness(ctx, finding):
 
 def replay(ctx, obj):
     return _sched.replay_events(ctx, PROP, obj)
+
+
+# ---------------------------------------------------------------------------------------------
+# second sentence of the property: dependency collection at submission (updatedependencies)
+
+MODULES = ["XpmVerif.Properties.C04", "XpmVerif.Properties.C04Deps"]
+POSITIONS = ["a", "items", "m", "ma", "h.inner", "h.sub.inner", "h.sub.sub.items", "hs.inner", "hs.items", "o", "os", "mo", "h.out",
+             "pre", "pre.hs", "init", "explicit"]
+
+
+def gen_dep_cases(rng, n):
+    cases = []
+    for c in range(n):
+        tasks = []
+        for i in range(rng.randint(2, 6)):
+            emb = [[rng.choice(POSITIONS), j] for j in range(i) if rng.random() < 0.5]
+            tasks.append({"cls": rng.choice(["G", "GO"]), "k": i * 1000 + c, "embeds": emb})
+        cases.append({"tasks": tasks})
+    return cases
+
+
+def deps_monitor(ctx, case, rec):
+    for i, (exp, act) in enumerate(zip(rec["expected"], rec["actual"])):
+        missing = sorted(set(exp) - set(act))
+        if missing:
+            where = [p for p, j in case["tasks"][i]["embeds"] if j in missing]
+            ctx.monitor_fail(f"dependency-not-collected:{where[0]}",
+                             f"task {i} embeds upstream task(s) {missing} at {where} but submit attached only dependencies {act}",
+                             {"deps_case": case, "task": i})
+            return
+
+
+def _deps_part(ctx, n):
+    from .. import identlib
+    rng = ctx.rng
+    cases = gen_dep_cases(rng, n)
+    tmp = ctx.tmpdir()
+    parts, k = identlib.split(list(enumerate(cases)), 8)
+    from concurrent.futures import ThreadPoolExecutor
+    recs = [None] * len(cases)
+    with ThreadPoolExecutor(max_workers=8) as ex:
+        futs = [(part, ex.submit(identlib.run_worker, {"cases": [c for _, c in part]}, tmp, f"deps-{pi}", None, "xv.impl.deps_worker"))
+                for pi, part in enumerate(parts)]
+        for part, f in futs:
+            for (ci, _), r in zip(part, f.result()):
+                recs[ci] = r
+    good = []
+    for case, rec in zip(cases, recs):
+        if rec["error"]:
+            ctx.count("deps_case_errors", rec["error"][:60])
+            continue
+        for t in case["tasks"]:
+            for p, _ in t["embeds"]:
+                ctx.count("embed_position", p)
+        ctx.case({"deps_case": case}, any(len(t["embeds"]) >= 2 for t in case["tasks"]))
+        deps_monitor(ctx, case, rec)
+        good.append((case, rec))
+    if len(good) < len(cases) * 0.9:
+        raise RuntimeError(f"too many failing dependency cases: {next(r['error'] for r in recs if r['error'])}")
+    try:
+        mouts = identlib.model_outputs(ctx, [r for _, r in good])
+    except Exception as e:
+        ctx.disagree({"driver": "Ident(deps)"}, None, None, f"model driver failed: {e}")
+        return
+    for (c, r), mo in zip(good, mouts):
+        for line, m, im in zip(r["lines"], mo, r["impl"]):
+            if m != im:
+                ctx.disagree({"deps_case": c, "line": line if line["op"] != "graph" else "graph"}, m, im,
+                             "dependencies collected by the model differ from the real submit")
+                break
+
+
+_base_correspond = correspond
+_base_search = search
+
+
+def correspond(ctx):  # noqa: F811
+    _base_correspond(ctx)
+    ctx.rule += ("; + dependency collection: 2-6 really submitted (dry-run) tasks, each embedding earlier ones at random positions (direct, list, dict, Meta, nested "
+                 "configuration 1-3 deep, list of nested, task output direct/list/dict/nested, pre-task, pre-task's nested configuration, init task, explicit)")
+    _deps_part(ctx, ctx.scale(120, 1500))
+
+
+def search(ctx):  # noqa: F811
+    _base_search(ctx)
+    if not ctx.monitor_failures:
+        _deps_part(ctx, 600)
